@@ -523,6 +523,49 @@ fn run(e: &Engine) {
             check,
         );
     }
+    // every defined suffix (incl. the DB ones) x every one- and two-character tail over letters, digits,
+    // '.', '/', '-' x four letter-case patterns: no extension of a defined suffix is a defined suffix
+    // unless the table says so
+    const TAIL: &[u8] = b"ABCDEFGHIJKLMNOPQRSTUVWXYZ0123456789./-";
+    e.enumerate::<Case, _, _>(
+        "every-defined-suffix-plus-tail",
+        ALL_Q.len() as u64,
+        |p, f| {
+            let q = ALL_Q[p as usize];
+            let mut bases: Vec<&'static str> = table(q).iter().map(|(s, _, _)| *s).collect();
+            bases.extend(db_table(q).iter().map(|(s, _)| *s));
+            for base in bases {
+                for t1 in TAIL.iter().map(|c| Some(*c)) {
+                    for t2 in std::iter::once(None).chain(TAIL.iter().map(|c| Some(*c))) {
+                        let mut full = base.as_bytes().to_vec();
+                        full.push(t1.unwrap());
+                        if let Some(c) = t2 {
+                            full.push(c);
+                        }
+                        if full.len() > 12 {
+                            continue;
+                        }
+                        for casing in 0..4u8 {
+                            let s: String = full
+                                .iter()
+                                .enumerate()
+                                .map(|(i, c)| match casing {
+                                    0 => *c as char,
+                                    1 => c.to_ascii_lowercase() as char,
+                                    2 => if i < base.len() { c.to_ascii_lowercase() as char } else { *c as char },
+                                    _ => if i % 2 == 0 { c.to_ascii_lowercase() as char } else { *c as char },
+                                })
+                                .collect();
+                            if !f(Case::Plain { q, single: casing & 1 == 1, lit: "1".into(), suffix: Some(s) }) {
+                                return;
+                            }
+                        }
+                    }
+                }
+            }
+        },
+        check,
+    );
     e.proptest("suffix-conversions", e.tier.pick(1_000_000, 20_000_000), case_strategy, check);
     e.require_fraction("suffix with multiplier", "defined suffix", 0.4);
     e.require_fraction("mixed-case suffix", "defined suffix", 0.3);
